@@ -36,6 +36,7 @@ func (c11) Classes() []sim.Class {
 		cs = append(cs,
 			sim.Class{Name: "one-runtime", Engine: e, Quick: 1200, Thorough: 60000, RunTimeoutSec: 120},
 			sim.Class{Name: "two-runtimes-shared-cache", Engine: e, Quick: 600, Thorough: 30000, RunTimeoutSec: 120},
+			sim.Class{Name: "emscripten-shared-env", Engine: e, Quick: 150, Thorough: 6000, RunTimeoutSec: 120},
 		)
 	}
 	return cs
@@ -47,8 +48,9 @@ func (c11) Describe() sim.Description {
 		Rule: "N in {2,3,4} instances of one compiled plan (and of a second plan), in one runtime or in two runtimes sharing a compilation cache, each with its own stdout buffer, directory mount and host-function counter; plans contain memory/global/table writes, memory.grow, data.drop+memory.init, elem.drop+table.init, WASI fd_write(1)/path_open/fd_close, traps and proc_exit; " +
 			"up to two successor instances are instantiated in the same runtime right after a predecessor finished and was closed (Module.Close); the final state includes a hash of the whole linear memory; calls are tasks: a call that reaches a host function is suspended there (native frames live) while the scheduler runs and finishes calls of other instances, per tape. " +
 			"Oracle: for every instance the sequence of (results, error kind, stdout bytes, descriptor numbers) and the final memory cells/globals/memory size equal those of the SAME call sequence on a lone instance in a fresh runtime (same engine). " +
+			"Class emscripten-shared-env: 2..4 instances of an Emscripten-shaped guest import ONE env host module (emscripten.InstantiateForModule) and call its invoke_ii, which calls back into the calling module (table entry, stack pointer save/restore, setThrew on a longjmp); a model of each instance's stack pointer/threw flag is checked after every step, instances are replaced mid-run. " +
 			"Non-trivial: at least two instances had a call suspended while another instance mutated state; distinct = distinct interleavings (sequence of instance ids at scheduling points)",
-		RealCode:    []string{"internal/wasm instantiation (memory, tables, globals, data/element instances)", "both engines' module engines and module contexts", "config.go toSysContext, internal/sys FSContext and stdio per instance", "compilation cache shared between runtimes"},
+		RealCode:    []string{"internal/wasm instantiation (memory, tables, globals, data/element instances)", "both engines' module engines and module contexts", "config.go toSysContext, internal/sys FSContext and stdio per instance", "compilation cache shared between runtimes", "imports/emscripten + internal/emscripten InvokeFunc (class emscripten-shared-env)"},
 		Stubs:       []string{"the host function env.h is the simulator's yield point (its return value is a pure function of its arguments)"},
 		Assumptions: []string{"comparison is wazero against wazero on the same engine: insensitive to anything that is not sharing"},
 		FaultKinds:  []string{"guest_trap", "guest_exit", "host_panic (deterministic in the instance's own host-call count)"},
@@ -248,6 +250,9 @@ func snapshot(in *instRun) string {
 }
 
 func (c11) Run(t *tape.Tape, cfg sim.Config) (res sim.Result) {
+	if cfg.Class == "emscripten-shared-env" {
+		return runEmscripten(t, cfg)
+	}
 	ctx := context.Background()
 	o := plan.Opts{MinFuncs: 3, MaxFuncs: 7, MaxAtoms: 6, Host: true, Traps: true, Exit: true, Grow: true, Table: true, Segments: true, WASI: true, HostTags: 4, GRef: true, Atomics: true, Wide: true}
 	populate := 0
